@@ -258,6 +258,54 @@ def execute(case) -> Dict[str, Any]:
             "interleaved": len({m for (m, c) in data_seen["L"]}) > 1}
 
 
+def long_lived(args) -> Dict[str, Any]:
+    """one connection receives more frames than a 16-bit counter can hold (publications of another client interleaved with
+    acknowledgements of its own requests): the sequence number is still one more on every frame, at every power-of-two boundary"""
+    tc, total, step = args
+    mmx.fresh_gc()
+    w = mmx.World(timecode=tc)
+    problems: List[Dict[str, Any]] = []
+    seen = 0
+    try:
+        for s in ("P1", "R1"):
+            w.client(s, HIDS[s]).connect()
+        w.settle()
+        for s in ("P1", "R1"):
+            w.clients[s].send(P.mkframe(P.MT_CONNECT, P.p_connect(), timecode=tc, src_mod_id=IDS[s]))
+        w.settle()
+        w.clients["R1"].send(P.mkframe(P.MT_SUBSCRIBE, P.p_sub(T1), timecode=tc, src_mod_id=IDS["R1"]))
+        w.settle()
+        one = P.mkframe(T1, b"", timecode=tc, src_mod_id=IDS["P1"])
+        expect = 0
+        sent = 0
+        while sent < total and w.alive:
+            k = min(step, total - sent)
+            w.clients["P1"].send(one * k)
+            # an acknowledgement in between (counted like every other frame)
+            w.clients["R1"].send(P.mkframe(P.MT_SUBSCRIBE, P.p_sub(T1), timecode=tc, src_mod_id=IDS["R1"]))
+            sent += k
+            w.settle(limit=10 ** 7)
+            c = w.clients["R1"]
+            for f in c.drain():
+                expect += 1
+                seen += 1
+                if f.msg_count != expect:
+                    problems.append({"kind": "sequence", "slot": "R1", "expected": expect, "got": f.msg_count, "msg_type": f.msg_type, "frames_on_this_connection": seen})
+                    expect = f.msg_count
+            if c.stream_problem or c.leftover():
+                problems.append({"kind": "stream", "slot": "R1", "detail": c.stream_problem or f"leftover {c.leftover()}"})
+                break
+            if len(problems) > 3:
+                break
+        if not w.alive:
+            problems.append({"kind": "manager-" + (w.exit or ("?",))[0], "detail": str((w.exit or ("", ""))[1:])[:300]})
+        elif seen < total:
+            problems.append({"kind": "frames-missing", "slot": "R1", "sent": total, "seen": seen})
+    finally:
+        w.stop()
+    return {"problems": problems, "frames": seen, "rounds": w.rounds}
+
+
 def run_chunk(cases):
     out = []
     for c in cases:
@@ -297,6 +345,8 @@ def run(tier: str) -> int:
     cases = cases_for(tier)
     chunks = core.chunks(core.shuffled(cases, "c05"), 40)
     res = core.pmap(run_chunk, chunks)
+    largs = [(False, 70000, 2500)] if tier == "quick" else [(False, 140000, 2500), (True, 70000, 1000)]
+    lres = core.pmap(long_lived, largs)
     core.close_pool()
     nexec = frames = rounds = 0
     sigs = set()
@@ -317,6 +367,12 @@ def run(tier: str) -> int:
             for p in problems:
                 chk.violation(f"C05:{p['kind']}", f"{p}", {"module": "vf.checks.c05", "case": list(case)},
                               size=len(case[3]) * 10 + sum(1 for st in case[3] if len(st) > 2))
+    for la, lr in zip(largs, lres):
+        nexec += 1
+        frames += lr["frames"]
+        rounds += lr["rounds"]
+        for p in lr["problems"]:
+            chk.violation(f"C05:{p['kind']}:long-lived", f"long-lived connection {la}: {p}", {"module": "vf.checks.c05", "long_lived": list(la)}, size=5000)
     chk.sample({"tc": cases[0][0], "n": cases[0][1], "schedule": cases[0][3], "destinations": cases[0][4]})
     chk.sample({"schedule_with_deviation": cases[-1][3]})
     chk.assumptions += ["virtual TCP model (vf.net)", "2 publishers, <= 3 messages each, 4 receivers", "<= 2 deviations per schedule"]
@@ -326,6 +382,12 @@ def run(tier: str) -> int:
 
 
 def replay(case) -> int:
+    if "long_lived" in case:
+        r = long_lived(tuple(case["long_lived"]))
+        for p in r["problems"]:
+            print("  PROBLEM:", p)
+        print("reproduced" if r["problems"] else "NOT reproduced")
+        return 1 if r["problems"] else 0
     c = case["case"]
     cc = (c[0], c[1], tuple(c[2]), c[3]) + tuple(c[4:6])
     r1 = execute(cc)
